@@ -41,7 +41,8 @@ def generate(ctx):
                      c0={"dt": rng.choice(DTS), "duration": rng.choice([0.0, 1.0, 2.0, 3.0]), "inplace": rng.random() < 0.5,
                          "inclusive": rng.random() < 0.5})
         else:
-            d.update(neuron=rng.choice(fac.NEURONS), syn=rng.choice(fac.SYNAPSES), c0={"dt": rng.choice(DTS), "batchsz": rng.randint(1, 3)})
+            d.update(neuron=rng.choice(fac.NEURONS), syn=rng.choice(fac.SYNAPSES), c0={"dt": rng.choice(DTS), "batchsz": rng.randint(1, 3)},
+                     topology=rng.choice(["serial", "recurrent"]))
         # the assignment sequence (values drawn now so that the descriptor is self-contained)
         seq = []
         keys = [k for k in d["c0"]]
@@ -245,30 +246,51 @@ class _Layer:
     def __init__(self, d):
         self.d = d
 
+    def _conn(self, c, nin, nout, k):
+        conn = fac.make_connection("dense", c["dt"], syn=self.d["syn"], B=c["batchsz"], delay=2.0, nin=nin, nout=nout)
+        fac.randomize(conn, torch.Generator().manual_seed(self.d["seed"] + k), wscale=(1.0 if k == 0 else 4.0), delay_steps=None)
+        return conn
+
     def build(self, c):
-        conn = fac.make_connection("dense", c["dt"], syn=self.d["syn"], B=c["batchsz"], delay=2.0)
-        fac.randomize(conn, torch.Generator().manual_seed(self.d["seed"]), delay_steps=None)
+        if self.d.get("topology") == "recurrent":
+            # the layer kind that keeps batch-shaped state of its own (the stored feedback spikes)
+            ff, lat, fb = self._conn(c, 4, 3, 0), self._conn(c, 3, 2, 1), self._conn(c, 2, 3, 2)
+            return neural.RecurrentSerial(ff, lat, fb, fac.make_neuron(self.d["neuron"], (3,), c["dt"], c["batchsz"]),
+                                          fac.make_neuron("LIF", (2,), c["dt"], c["batchsz"]))
+        conn = self._conn(c, 4, 3, 0)
         n = fac.make_neuron(self.d["neuron"], conn.outshape, c["dt"], c["batchsz"])
         return neural.Serial(conn, n)
 
+    @staticmethod
+    def _parts(o):
+        return [c for _, c in o.named_connections], [n for _, n in o.named_neurons]
+
     def finalize(self, o):
-        o.connection.delay = torch.full_like(o.connection.delay, min(2.0, o.connection.dt))
+        for c in self._parts(o)[0]:
+            c.delay = torch.full_like(c.delay, min(2.0, c.dt))
 
     def set(self, o, k, v):
-        setattr(o.connection, k, v)
-        setattr(o.neuron, k, v)
+        conns, neurons = self._parts(o)
+        for m in conns + neurons:
+            setattr(m, k, v)
 
     def observe(self, o):
-        return {"connection_dt": o.connection.dt, "neuron_dt": o.neuron.dt, "connection_batchsz": o.connection.batchsz,
-                "neuron_batchsz": o.neuron.batchsz, "synapse_delay": o.synapse.delay, "outshape": tuple(o.connection.outshape)}
+        conns, neurons = self._parts(o)
+        c0, n0 = conns[0], neurons[0]
+        out = {"connection_dt": c0.dt, "neuron_dt": n0.dt, "connection_batchsz": c0.batchsz,
+               "neuron_batchsz": n0.batchsz, "synapse_delay": c0.synapse.delay, "outshape": tuple(c0.outshape)}
+        for i, m in enumerate(conns[1:] + neurons[1:]):
+            out[f"other{i}_dt"], out[f"other{i}_batchsz"] = m.dt, m.batchsz
+        return out
 
     def drive(self, o, g, T=8):
-        o.connection.clear()
-        o.neuron.clear()
+        o.clear()          # the layer's own documented way back to the state of a freshly built one
+        conns, _ = self._parts(o)
         outs = []
         for _ in range(T):
-            x = torch.rand((o.connection.batchsz,) + tuple(o.connection.inshape), generator=g) < 0.6
-            outs.append(o(x).clone())
+            x = torch.rand((conns[0].batchsz,) + tuple(conns[0].inshape), generator=g) < 0.6
+            r = o(x)
+            outs.extend([t.clone() for t in r] if isinstance(r, tuple) else [r.clone()])
         return outs
 
 
@@ -279,7 +301,8 @@ AFFECTS = {
     "synapse": {"dt": ["dt"], "delay": ["delay"], "batchsz": ["batchsz", "current_shape"], "inplace": ["inplace"], "dtype": ["dtype"]},
     "connection": {"dt": ["dt", "synapse_dt"], "batchsz": ["batchsz", "synapse_batchsz"], "synapse": ["synapse"], "dtype": ["dtype"]},
     "reducer": {"inclusive": ["inclusive"], "dt": ["dt", "decay"], "duration": ["duration"], "inplace": ["inplace"], "dtype": []},
-    "layer": {"dt": ["connection_dt", "neuron_dt"], "batchsz": ["connection_batchsz", "neuron_batchsz"]},
+    "layer": {"dt": ["connection_dt", "neuron_dt", "other0_dt", "other1_dt", "other2_dt"],
+              "batchsz": ["connection_batchsz", "neuron_batchsz", "other0_batchsz", "other1_batchsz", "other2_batchsz"]},
 }
 
 
@@ -304,6 +327,10 @@ def run_case(ctx, desc):
         ctx.sample(desc)
     ad = ADAPTERS[kind](desc)
     sub = desc.get("cls") or desc.get("syn") and kind == "synapse" and desc["syn"] or desc.get("conn") or desc.get("red") or desc.get("neuron")
+    if kind == "layer":
+        sub = f"{desc.get('topology', 'serial')}-{sub}"
+        if desc.get("topology") == "recurrent":
+            ctx.count("recurrent_layer_cases")
     try:
         A = ad.build(desc["c0"])
     except Exception as e:  # noqa: BLE001
